@@ -599,7 +599,11 @@ class Interp:
                 spec = ""
                 if v.format_spec is not None:
                     sv = self.eval(v.format_spec, fr)
-                    spec = self.strval(sv) if self.strval(sv) is not None else "?"
+                    spec = self.strval(sv)
+                    if spec is None:
+                        ss = self.as_str(sv)
+                        spec = "".join(p.text if isinstance(p, Lit) else "{" + (self.tag(p.value) if isinstance(p, (StrOf, NumFmt)) else "?") + "}"
+                                       for p in ss.parts) if ss is not None else "?"
                 conv = {115: "!s", 114: "!r", 97: "!a"}.get(v.conversion, "")
                 parts += self.str_parts(val, spec + conv)
         return self.mkstr(parts)
